@@ -327,6 +327,12 @@ C06_labels(t) ==
     /\ \A i, j \in 1..Len(st.players) : i # j => Range(st.players[i].pos) \cap Range(st.players[j].pos) = {}
     /\ PartAtSeat(st, st.bb) /\ "bb" \in Range(st.players[st.seatmap[st.bb + 1] + 1].pos)
     /\ (st.sb \in 0..(st.nseat - 1) /\ PartAtSeat(st, st.sb)) => "sb" \in Range(st.players[st.seatmap[st.sb + 1] + 1].pos)
+\* "in every hand ... every dealt-in player has one, nobody else has any": the labels handed out when the hand opened stay
+\* what they are for as long as the hand is on the table (nothing written later in the hand adds, moves or removes one)
+C06_labelsStable(t, gg) ==
+  (Trusty(t) /\ gg.handLive /\ ~IsOpenSnap(t) /\ t.st.gc = gg.lastGc /\ t.st.status \in HandStatuses /\ t.st.rule # "short_deck") =>
+    \A id \in Ids(t.st) :
+      Range(P(t.st, id).pos) = (IF id \in DOMAIN gg.openLabels THEN Range(gg.openLabels[id]) ELSE {})
 C06_engineLabels(t, gg) ==
   (t.ev = "spy" /\ t.a.kind = "create" /\ t.res = "ok" /\ t.st.rule # "short_deck" /\ Len(t.a.joins) = Len(gg.handIds)) =>
     \A i \in 1..Len(t.a.joins) :
@@ -588,6 +594,7 @@ CheckLine(k, gg) ==
      /\ Clause("C05_newcomerFlag", T_C05_newcomerFlag(t), "", k)
      /\ Clause("C06_labels", C06_labels(t), IF KF_DealerOnBBTable(st) THEN "KF-C04-dealer-on-bb"
                                             ELSE IF KF_DealtInBetweenDealerAndSB(st) THEN "KF-C06-active-between-dealer-and-sb" ELSE "", k)
+     /\ Clause("C06_labelsStable", C06_labelsStable(t, gg), kfmid, k)
      /\ Clause("C06_engineLabels", C06_engineLabels(t, gg),
                IF Len(gg.openSt) = 1 /\ KF_DealtInBetweenDealerAndSB(gg.openSt[1]) THEN "KF-C06-active-between-dealer-and-sb" ELSE "", k)
      /\ Clause("C06_nextBB", C06_nextBB(t), "", k)
